@@ -37,10 +37,6 @@ def setup (profile arm : String) (M : Nat) (rest : List String) : Option (Except
     | .ok dm => some (.ok ⟨kernels p dm st (armOf arm) (accOf (profile == "dev")), syms.length⟩)
   | _ => none
 
-def insertSorted (x : Nat × Nat) : List (Nat × Nat) → List (Nat × Nat)
-  | [] => [x]
-  | y :: ys => if x.1 < y.1 || (x.1 == y.1 && x.2 ≤ y.2) then x :: y :: ys else y :: insertSorted x ys
-
 def sortHits (hs : List (Hit Float32)) : List (Nat × Nat) :=
   (hs.map fun h => (h.position, h.score.toBits.toNat)).toArray.qsort
     (fun a b => a.1 < b.1 || (a.1 == b.1 && a.2 < b.2)) |>.toList
